@@ -147,6 +147,41 @@ Section Kinds.
   Qed.
 End Kinds.
 
+(** ** per class: the claims for the evaluation of the symbolic run *)
+Lemma box_core_class dx dy dz (c1 c2 c3 e1 e2 e3 mh : R) :
+  dx || dy || dz = true ->
+  let env := [c1; c2; c3; e1; e2; e3] in
+  env_pos env ->
+  let hx := peval env (sym_h dx 0) in let hy := peval env (sym_h dy 1) in let hz := peval env (sym_h dz 2) in
+  let cx := peval env (sym_c dx 0) in let cy := peval env (sym_c dy 1) in let cz := peval env (sym_c dz 2) in
+  Rmin (hx - cx) (Rmin (hy - cy) (hz - cz)) = mh ->
+  let '(vs, ts, ps) := box_core (O := ROps) (V hx hy hz) (V cx cy cz) dx dy dz mh in
+  tets_oriented 1 vs ts /\
+  sum_vol6 1 vs ts = Some (48 * (hx * hy * hz)) /\
+  verts_in_box hx hy hz vs /\
+  interiors_disjoint vs ts /\
+  Forall2 (fun p q => q = box_depth hx hy hz p /\ (q = 0 \/ q = mh)) vs ps.
+Proof.
+  intros Hd env Henv hx hy hz cx cy cz Hemin.
+  assert (Hc : 0 <= cx /\ 0 <= cy /\ 0 <= cz /\ 0 <= hx /\ 0 <= hy /\ 0 <= hz).
+  { inversion Henv as [|? ? P1 Q1]; inversion Q1 as [|? ? P2 Q2]; inversion Q2 as [|? ? P3 Q3];
+    inversion Q3 as [|? ? P4 Q4]; inversion Q4 as [|? ? P5 Q5]; inversion Q5 as [|? ? P6 Q6]; subst.
+    unfold cx, cy, cz, hx, hy, hz, env, sym_c, sym_h. destruct dx, dy, dz; cbn; repeat split; lra. }
+  pose proof (box_classes_ok dx dy dz Hd) as OK.
+  pose proof (box_core_sym dx dy dz c1 c2 c3 e1 e2 e3 mh) as CS. cbv zeta in CS.
+  fold env in CS. fold hx hy hz cx cy cz in CS. rewrite CS. clear CS.
+  unfold box_class_ok in OK.
+  destruct (sym_box dx dy dz) as [[svs sts] sps]. cbn [fst snd].
+  repeat (apply andb_true_iff in OK as [OK ?]).
+  repeat split.
+  - apply (chk_oriented_sound env Henv 1). assumption.
+  - rewrite (chk_sum_sound env 1 svs sts _ H2). f_equal.
+    rewrite peval_pscale0, !peval_pmul. reflexivity.
+  - apply (chk_inbox_sound env Henv). assumption.
+  - apply (chk_disjoint_sound env Henv). assumption.
+  - unfold box_pots. apply (chk_kinds_sound env dx dy dz mh); try assumption; tauto.
+Qed.
+
 (** ** the theorem: make_tetrahedral_box, all sizes *)
 Definition box_statement (sx sy sz : R) : Prop :=
   let hx := sx / 2 in let hy := sy / 2 in let hz := sz / 2 in
@@ -187,53 +222,54 @@ Proof.
   pose proof (box_central_min hx mh tol Htol) as Mx.
   pose proof (box_central_min hy mh tol Htol) as My.
   pose proof (box_central_min hz mh tol Htol) as Mz.
-  set (cx := box_central hx mh tol) in *. set (cy := box_central hy mh tol) in *.
-  set (cz := box_central hz mh tol) in *.
   cbn [eqb ROps zero].
-  set (dx := Reqb cx 0) in *. set (dy := Reqb cy 0) in *. set (dz := Reqb cz 0) in *.
-  (* positive parameters *)
-  set (ex := hx - cx) in *. set (ey := hy - cy) in *. set (ez := hz - cz) in *.
-  assert (Hemin : Rmin ex (Rmin ey ez) = mh).
-  { assert (Gx : mh <= ex) by (destruct Cx as [(_ & _ & X)|(_ & _ & X)]; lra).
-    assert (Gy : mh <= ey) by (destruct Cy as [(_ & _ & X)|(_ & _ & X)]; lra).
-    assert (Gz : mh <= ez) by (destruct Cz as [(_ & _ & X)|(_ & _ & X)]; lra).
-    assert (Hex : ex = mh \/ ey = mh \/ ez = mh).
-    { destruct Hmin as [Hm|[Hm|Hm]]; symmetry in Hm; [left|right; left|right; right].
-      - unfold ex. rewrite (Mx Hm). lra.
-      - unfold ey. rewrite (My Hm). lra.
-      - unfold ez. rewrite (Mz Hm). lra. }
-    apply Rmin3_eq; assumption. }
-  set (env := [if dx then 1 else cx; if dy then 1 else cy; if dz then 1 else cz; ex; ey; ez]).
-  assert (Eh : peval env (sym_h dx 0) = hx /\ peval env (sym_h dy 1) = hy /\ peval env (sym_h dz 2) = hz /\
-               peval env (sym_c dx 0) = cx /\ peval env (sym_c dy 1) = cy /\ peval env (sym_c dz 2) = cz).
-  { unfold env, sym_h, sym_c.
-    destruct Cx as [(? & -> & ?)|(? & -> & ?)], Cy as [(? & -> & ?)|(? & -> & ?)],
-             Cz as [(? & -> & ?)|(? & -> & ?)]; cbn; unfold ex, ey, ez in *; repeat split; lra. }
-  destruct Eh as (E1 & E2 & E3 & E4 & E5 & E6).
-  assert (Henv : env_pos env).
-  { unfold env, env_pos.
-    destruct Cx as [(? & -> & ?)|(? & -> & ?)], Cy as [(? & -> & ?)|(? & -> & ?)],
-             Cz as [(? & -> & ?)|(? & -> & ?)]; repeat constructor; unfold ex, ey, ez in *; lra. }
+  generalize dependent (box_central hx mh tol). intros cx Cx Mx.
+  generalize dependent (box_central hy mh tol). intros cy Cy My.
+  generalize dependent (box_central hz mh tol). intros cz Cz Mz.
+  generalize dependent (Reqb cx 0). intros dx Cx.
+  generalize dependent (Reqb cy 0). intros dy Cy.
+  generalize dependent (Reqb cz 0). intros dz Cz.
+  assert (Gx : mh <= hx - cx) by (destruct Cx as [(_ & _ & X)|(_ & _ & X)]; lra).
+  assert (Gy : mh <= hy - cy) by (destruct Cy as [(_ & _ & X)|(_ & _ & X)]; lra).
+  assert (Gz : mh <= hz - cz) by (destruct Cz as [(_ & _ & X)|(_ & _ & X)]; lra).
+  assert (Hex : hx - cx = mh \/ hy - cy = mh \/ hz - cz = mh).
+  { destruct Hmin as [Hm|[Hm|Hm]]; symmetry in Hm; [left|right; left|right; right].
+    - rewrite (Mx Hm). lra.
+    - rewrite (My Hm). lra.
+    - rewrite (Mz Hm). lra. }
+  assert (Hemin : Rmin (hx - cx) (Rmin (hy - cy) (hz - cz)) = mh) by (apply Rmin3_eq; assumption).
   assert (Hd : dx || dy || dz = true).
   { destruct Hmin as [Hm|[Hm|Hm]]; symmetry in Hm.
     - specialize (Mx Hm). destruct Cx as [(_ & -> & _)|(? & _ & _)]; [reflexivity|lra].
     - specialize (My Hm). destruct Cy as [(_ & -> & _)|(? & _ & _)]; [apply orb_true_iff; left; apply orb_true_r|lra].
     - specialize (Mz Hm). destruct Cz as [(_ & -> & _)|(? & _ & _)]; [apply orb_true_r|lra]. }
-  pose proof (box_classes_ok dx dy dz Hd) as OK.
-  pose proof (box_core_sym dx dy dz (if dx then 1 else cx) (if dy then 1 else cy) (if dz then 1 else cz)
-                           ex ey ez mh) as CS.
-  cbv zeta in CS. fold env in CS. rewrite E1, E2, E3, E4, E5, E6 in CS. rewrite CS. clear CS.
-  unfold box_class_ok in OK.
-  destruct (sym_box dx dy dz) as [[svs sts] sps]. cbn [fst snd].
-  repeat (apply andb_true_iff in OK as [OK ?]).
-  repeat split.
-  - apply (chk_oriented_sound env Henv 1). assumption.
-  - rewrite (chk_sum_sound env 1 svs sts _ H2). f_equal.
-    rewrite peval_pscale0, !peval_pmul, E1, E2, E3. unfold hx, hy, hz. cbn. field.
-  - rewrite <- E1, <- E2, <- E3. apply (chk_inbox_sound env Henv). assumption.
-  - apply (chk_disjoint_sound env Henv). assumption.
-  - unfold box_pots.
-    pose proof (chk_kinds_sound env dx dy dz mh) as K. unfold pot_ok in K. rewrite E1, E2, E3, E4, E5, E6 in K.
-    apply K; [ | exact Hemin | repeat split; lra | exact H ].
-    destruct Cx as [(-> & _)|(? & _)], Cy as [(-> & _)|(? & _)], Cz as [(-> & _)|(? & _)]; lra.
+  pose proof (box_core_class dx dy dz (if dx then 1 else cx) (if dy then 1 else cy) (if dz then 1 else cz)
+                             (hx - cx) (hy - cy) (hz - cz) mh Hd) as CC.
+  cbv zeta in CC.
+  assert (E : peval [if dx then 1 else cx; if dy then 1 else cy; if dz then 1 else cz; hx - cx; hy - cy; hz - cz]
+                    (sym_h dx 0) = hx /\
+              peval [if dx then 1 else cx; if dy then 1 else cy; if dz then 1 else cz; hx - cx; hy - cy; hz - cz]
+                    (sym_h dy 1) = hy /\
+              peval [if dx then 1 else cx; if dy then 1 else cy; if dz then 1 else cz; hx - cx; hy - cy; hz - cz]
+                    (sym_h dz 2) = hz /\
+              peval [if dx then 1 else cx; if dy then 1 else cy; if dz then 1 else cz; hx - cx; hy - cy; hz - cz]
+                    (sym_c dx 0) = cx /\
+              peval [if dx then 1 else cx; if dy then 1 else cy; if dz then 1 else cz; hx - cx; hy - cy; hz - cz]
+                    (sym_c dy 1) = cy /\
+              peval [if dx then 1 else cx; if dy then 1 else cy; if dz then 1 else cz; hx - cx; hy - cy; hz - cz]
+                    (sym_c dz 2) = cz).
+  { unfold sym_h, sym_c.
+    destruct Cx as [(? & -> & ?)|(? & -> & ?)], Cy as [(? & -> & ?)|(? & -> & ?)],
+             Cz as [(? & -> & ?)|(? & -> & ?)]; cbn; repeat split; lra. }
+  destruct E as (E1 & E2 & E3 & E4 & E5 & E6).
+  rewrite E1, E2, E3, E4, E5, E6 in CC.
+  assert (Henv : env_pos [if dx then 1 else cx; if dy then 1 else cy; if dz then 1 else cz;
+                          hx - cx; hy - cy; hz - cz]).
+  { unfold env_pos.
+    destruct Cx as [(? & -> & ?)|(? & -> & ?)], Cy as [(? & -> & ?)|(? & -> & ?)],
+             Cz as [(? & -> & ?)|(? & -> & ?)]; repeat constructor; lra. }
+  specialize (CC Henv Hemin).
+  destruct (box_core (V hx hy hz) (V cx cy cz) dx dy dz mh) as [[vs ts] ps].
+  destruct CC as (A1 & A2 & A3 & A4 & A5). repeat split; try assumption.
+  rewrite A2. f_equal. unfold hx, hy, hz. field.
 Qed.
